@@ -243,7 +243,7 @@ def run(ctx):
                             'plus random ASTs of depth <= 4 over %d literals of every kind, each rendered with spacing / parenthesis variation, on grids of 40 rows of valuations '
                             '(absent, null, marker, equal, below, above, other kind, valid / dangling / non-reference steps, ids kept as Ref, Ref with display name, plain string, @string, or missing) '
                             'x limit in {0, 1, 3, 1000}; distinct by (filter text, grid, limit)' % len(lits_all))
-    grids = [build_grid(random.Random(ctx.seed * 100 + i), h, lits_all, 40) for i in range(4 if thorough else 2)]
+    grids = [build_grid(random.Random(ctx.seed * 100 + i), h, lits_all, 40) for i in range(6 if thorough else 2)]
 
     # ---- filters
     atoms = [('has', ('a',)), ('missing', ('note',)), ('has', ('orb',)), ('cmp', '==', ('a',), 0), ('cmp', '<', ('b',), 1), ('cmp', '!=', ('c',), 8),
@@ -258,7 +258,7 @@ def run(ctx):
             asts.append((o1, (o2, x, y), z))
             asts.append((o1, x, (o2, y, z)))
     n_exh = len(asts)
-    for _ in range(6000 if thorough else 1200):
+    for _ in range(20000 if thorough else 1200):
         asts.append(gen_ast(rng, lits_all, rng.randint(1, 4)))
     filters = []
     for n, ast in enumerate(asts):
@@ -361,7 +361,7 @@ def run(ctx):
 
     # ---- tie 2: selected rows, with Python's comparison as the oracle
     cmds, expect = [], []
-    for n, (ast, text) in enumerate(tie[:(4000 if thorough else 900)]):
+    for n, (ast, text) in enumerate(tie[:(12000 if thorough else 900)]):
         gi = n % len(grids)
         g = grids[gi]
         limit = [0, 0, 1, 3][n % 4]
